@@ -26,6 +26,13 @@ THEOREMS = [
     "Cv.SaveLoad.beq_symm",
     "Cv.SaveLoad.beq_load_save",
     "Cv.SaveLoad.loaded_answers",
+    "Cv.C18e.bfs_result_shape",
+    "Cv.C18e.saved_wf",
+    "Cv.C18e.saved_load_save",
+    "Cv.C18e.saved_beq_iff",
+    "Cv.C18e.saved_beq_load_save",
+    "Cv.C18e.loaded_findPathTo_spec",
+    "Cv.C18e.loaded_findPathFrom_spec",
 ]
 NAMES = ["a", "b'", "L", "R", "x y", "π", "Ω-1", 'q"uote', "日本", "g,1", "0", "", "__", "layer__3"]
 
@@ -299,7 +306,7 @@ def main():
             body = json.load(open(os.path.join(VERIF, ck.replay) if not os.path.isabs(ck.replay) else ck.replay))
             ck.guard(run_many_results if "loads" in body["case"] else run_big_layer if "starts" in body["case"] and isinstance(body["case"]["starts"], int) else run_case, ck, body["case"], tmp)
             ck.finish(rule="replay of one recorded case")
-        ck.lean_obligations("CvProps.C18", THEOREMS)
+        ck.lean_obligations(["CvProps.C18", "CvProps.C18e"], THEOREMS)
         for case in json.load(open(os.path.join(VERIF, "harness", "corpus", "C18.json"))):
             ck.guard(run_case, ck, case, tmp)
             ck.count("corpus")
